@@ -199,6 +199,9 @@ func engineExport(ctx *engineCtx) {
 	var cases []string
 	distinct := map[string]bool{}
 	dirtyN := 0
+	// an export is a value: it must still read the same after later exports (no buffer shared between calls)
+	var prevExport *journal.CsvExport
+	var prevTrips, prevStops string
 	for i := 0; i < n; i++ {
 		dirty := g.coin(0.15)
 		j := g.journalValue(dirty)
@@ -214,6 +217,11 @@ func engineExport(ctx *engineCtx) {
 		if !reflect.DeepEqual(before, j) {
 			ctx.violate("export-mutates-journal", "ExportToCsv modified the journal", map[string]any{"journal": cJournal(before)})
 		}
+		if prevExport != nil && (string(prevExport.TripsCsv) != prevTrips || string(prevExport.StopTimesCsv) != prevStops) {
+			ctx.violate("export-overwritten-by-later-export", "the tables returned by an earlier ExportToCsv call changed when another journal was exported (they no longer render the journal they were made from)",
+				map[string]any{"earlier_trips_csv_when_returned": prevTrips, "earlier_trips_csv_now": string(prevExport.TripsCsv), "later_journal": cJournal(before)})
+		}
+		prevExport, prevTrips, prevStops = e, string(e.TripsCsv), string(e.StopTimesCsv)
 		if !dirty {
 			if msg := oracleC20(before, e); msg != "" {
 				ctx.violate("export-readback", msg, map[string]any{"journal": cJournal(before), "trips_csv": string(e.TripsCsv), "stop_times_csv": string(e.StopTimesCsv)})
